@@ -413,6 +413,8 @@ def _inverse_mirror(ctx: Ctx, fwd, inv):
     D2, S2 = ir.args[1], ir.args[2]
     L = ir.args[0].args[1]
     res.instance("INVERSE-MIRROR", key, sample={"forward": src(fr), "inverse": src(ir), "S": src(S), "D": src(D), "S'": src(S2), "D'": src(D2)})
+    S, D = inline_locals(fwd.node, S), inline_locals(fwd.node, D)
+    S2, D2 = inline_locals(inv.node, S2), inline_locals(inv.node, D2)
     if _canon(S) != _canon(S2) or _canon(D) != _canon(D2):
         ctx.finding("INVERSE-MIRROR", inv, ir, f"{inv.name} moves axis {src(D2)} -> {src(S2)} but {fwd.name} moved {src(S)} -> {src(D)}: the inverse does not undo the forward axis move")
     # shape bookkeeping, read by a small interpreter of list states over the straight-line body:
@@ -464,7 +466,7 @@ def _inverse_mirror(ctx: Ctx, fwd, inv):
                 if x and l and x[0] == "dim" and l[0] == "minus" and x[1] == l[1] and _canon(x[2]) == _canon(l[2]):
                     return ("moved", l[1], l[2], ast.Constant(0), e)
             if len(e.elts) == 1:
-                x = ev(e.elts[0])
+                x = do_pop(e.elts[0], e) if is_pop(e.elts[0]) else ev(e.elts[0])  # [L.pop(i)] + L
                 if x and x[0] == "dim":
                     return ("single",) + x[1:]
             return None
@@ -528,6 +530,7 @@ def _inverse_mirror(ctx: Ctx, fwd, inv):
     if Lv is None or Lv[0] != "moved":
         raise AnalysisError(f"INVERSE-MIRROR {key}: shape bookkeeping of {inv.name} is not list(shape) with one size moved ({Lv[0] if Lv else 'unrecognised'}); cannot decide")
     _, shape_param, pop_idx, ins_idx, node = Lv
+    pop_idx, ins_idx = inline_locals(inv.node, pop_idx), inline_locals(inv.node, ins_idx)  # folded_axis = skip_begin + mode
     if shape_param not in inv.all_params:
         raise AnalysisError(f"INVERSE-MIRROR {key}: the intermediate shape of {inv.name} is not built from a parameter; cannot decide")
     lname = L.id if isinstance(L, ast.Name) else "shape"
